@@ -19,6 +19,8 @@ Two harnesses on the real TransferManager code (shared fakes: engine/fakes_trans
   cycle can fall between the creation of a start task and its INITIALIZING transition."""
 from __future__ import annotations
 
+import asyncio
+
 from engine import symex
 from engine import fakes_transfer as ft
 from engine.fakes_transfer import ST, UP, TLoop
@@ -35,8 +37,8 @@ from aioslsk.user.model import UserStatus
 PROPERTY = 'C05'
 
 
-def h_step(c, dirs, users, statuses=4, stale=True, slots_hi=4):
-    ft.step_harness(c, dirs, users, 'C05', slots_hi=slots_hi, inflight=False, sym_users=True, statuses=statuses,
+def h_step(c, dirs, users, statuses=4, stale=True, slots_hi=4, inflight=False):
+    ft.step_harness(c, dirs, users, 'C05', slots_hi=slots_hi, inflight=inflight, sym_users=True, statuses=statuses,
                     vary_downloads=False, stale_handles=stale)
 
 
@@ -70,7 +72,6 @@ def h_slots(c, owners=(0, 1, 2), events=2, first=None, second=None, nu=None, gap
             ft.add_user(w, f'user{j}', UserStatus.ONLINE)
         mgr = w.manager
         starts = []             # task records of _initialize_upload, in start order
-        flags = {'window': False}
 
         def ups():
             return [t for t in mgr.transfers if t.is_upload()]
@@ -80,6 +81,9 @@ def h_slots(c, owners=(0, 1, 2), events=2, first=None, second=None, nu=None, gap
 
         why = {}
 
+        def reached_initializing(rec):
+            return rec.get('initialized', False)
+
         def active():
             """uploads that occupy a slot right now (why[id]: 'state' / 'start_pending' / 'old_task_alive')"""
             out = []
@@ -88,12 +92,14 @@ def h_slots(c, owners=(0, 1, 2), events=2, first=None, second=None, nu=None, gap
                 st = t.state.VALUE
                 if st in (ST.INITIALIZING, ST.UPLOADING):
                     why[id(t)] = 'state'
-                elif any(ft.not_started(r) for r in live):
-                    why[id(t)] = 'start_pending'          # start task created, INITIALIZING not reached yet
-                elif live and st in (ST.ABORTED, ST.PAUSED, ST.QUEUED):
-                    why[id(t)] = 'old_task_alive'         # cancelled / re-queued, but its old task goes on
+                elif any(not reached_initializing(r) for r in live):
+                    # it has been given a slot: its start task exists (not yet run, or suspended in
+                    # something it does before the INITIALIZING transition)
+                    why[id(t)] = 'start_pending'
+                elif live and st in (ST.ABORTED, ST.PAUSED):
+                    why[id(t)] = 'old_task_alive'         # cancelled, but its task goes on negotiating
                 else:
-                    continue
+                    continue      # e.g. FAILED/QUEUED while the old task only notifies the peer any more
                 out.append(t)
             return out
 
@@ -102,15 +108,27 @@ def h_slots(c, owners=(0, 1, 2), events=2, first=None, second=None, nu=None, gap
             return 'task_of_cancelled_upload_alive' if 'old_task_alive' in kinds else \
                 'start_pending' if 'start_pending' in kinds else 'plain'
 
+        class _Listener:
+            """marks the start task(s) of an upload once the upload has reached INITIALIZING"""
+
+            async def on_transfer_state_changed(self, transfer, old, new):
+                if new == ST.INITIALIZING:
+                    for r in starts:
+                        if r['transfer'] is transfer and not r['task'].done():
+                            r['initialized'] = True
+        listener = _Listener()
+
         def on_task(rec):
             if rec['kind'] != '_initialize_upload' or rec['transfer'] is None:
                 return
             t = rec['transfer']
+            if all(x is not listener for x in t.state_listeners):
+                t.state_listeners.append(listener)
             before = active()
             starts.append(rec)
             c.reach('upload_started')
             c.note(f"t={loop.time():.2f} start {t.remote_path} for {t.username}; active before: "
-                   f"{[(x.remote_path, x.state.VALUE.name) for x in before]}")
+                   f"{[(x.remote_path, x.state.VALUE.name, why[id(x)]) for x in before]}")
             # finite tag for the signature: is a cancelled / re-queued upload whose old task is still alive involved?
             how = tag(before)
             c.check(all(x is not t for x in before), 'not_started_twice', sig=['scenario', how], info=t.remote_path)
@@ -121,13 +139,27 @@ def h_slots(c, owners=(0, 1, 2), events=2, first=None, second=None, nu=None, gap
             c.check(t.state.VALUE == ST.QUEUED, 'started_upload_was_queued', sig=['scenario'])
         loop.on_task = on_task
 
-        # observe manage_transfers entries: is a start task created earlier still waiting for its first step?
+        def start_rec_of(task):
+            return next((r for r in starts if r['task'] is task), None)
+
+        async def latency(what):
+            """an awaitable of the environment touched by a start task that has not reached INITIALIZING
+            yet ends at once or only after 0.12 s (longer than the management interval)"""
+            rec = start_rec_of(asyncio.current_task())
+            if rec is None or reached_initializing(rec):
+                return
+            c.reach('environment_call_before_initializing')
+            if c.choose(2, 'call_before_initializing_is_slow') == 1:
+                c.note(f't={loop.time():.2f} {what} of {rec["transfer"].remote_path} is slow')
+                await asyncio.sleep(0.12)
+        ft.LAT.hook = latency
+
+        # observe manage_transfers entries: does a cycle begin while an upload holds a start task that has not
+        # reached INITIALIZING?  (not an obligation: what matters is whether the limit is then exceeded)
         real_manage = mgr.manage_transfers
 
         def manage_transfers():
-            open_window = [r for r in starts if not r['task'].done() and ft.not_started(r)]
-            if open_window:
-                flags['window'] = True
+            if any(not r['task'].done() and not reached_initializing(r) for r in starts):
                 c.reach('cycle_inside_start_window')
             c.reach('management_cycle')
             return real_manage()
@@ -227,8 +259,6 @@ def h_slots(c, owners=(0, 1, 2), events=2, first=None, second=None, nu=None, gap
                 settle(1)
         settle(2)
         c.reach('scenario_end')
-        # the window between task creation and INITIALIZING is never open when a cycle starts
-        c.check(not flags['window'], 'no_cycle_inside_start_window', sig=['scenario'])
         # quiescence: nobody eligible is left waiting while a slot is free
         act = active()
         busy_users = {t.username for t in act}
@@ -322,10 +352,12 @@ def jobs(tier):
         r = list(req) + (['c05_step_started_some'] if 'U' in dirs else [])
         out.append({'harness': 'step', 'fn': h_step, 'params': dict(dirs=dirs, users=users, **kw), 'requires': r})
     if q:
-        step('U', [0])
+        step('U', [0], inflight=True)
         step('D', [0])
-        step('UU', [0, 0])
+        step('UU', [0, 0], inflight=True)
         step('UU', [0, 1], stale=False)
+        # a queued upload whose previous task is still running must not use up a slot that another user could get
+        step('UU', [0, 1], stale=False, inflight=True, statuses=2)
         step('UD', [0, 0])
         step('UD', [0, 1])
         step('DU', [0, 0])
@@ -335,9 +367,10 @@ def jobs(tier):
     else:
         for dirs in ('U', 'D', 'UU', 'UD', 'DU'):
             for users in _users_patterns(len(dirs), 2):
-                step(dirs, users)
+                step(dirs, users, inflight=('U' in dirs))
         for users in _users_patterns(3, 3):
             step('UUU', users, stale=(users != [0, 1, 2]))
+            step('UUU', users, stale=False, inflight=True, statuses=2)
         for dirs in ('UUD', 'UDU', 'DUU'):
             for users in ([0, 0, 0], [0, 0, 1], [0, 1, 0], [0, 1, 1]):
                 step(dirs, users, statuses=3, stale=False)
